@@ -55,6 +55,15 @@ CLAIMED = {
          'the same statements with rounding tolerance.',
          'Trusted: Lean kernel, standard axioms, fracexec. Rounding in doubles is outside the theorem (live run uses a '
          '1e-9 relative tolerance).', 'DESIGN.md section 4 C16'),
+ 'C09': ('Lean 4 theorems over the reals (Real.exp/log/rpow; algebraic cancellation, strict monotonicity without calculus) '
+         'about a symbol-generic model of the psychrometric routines, tied to the real source by exact rational execution with shared stubs',
+         'Proof: feeding the RH that psychrometrics reports back through hum_from_rhum_temp returns the humidity ratio times '
+         'the constant 0.62198/0.621945 for every temperature; the record chain staHum->canHum->psychrometrics adds nothing; RH '
+         'and dew point strictly increase with humidity ratio and RH strictly decreases with temperature on -40..50 C. The model '
+         'is checked operation by operation against the real routines; real simulations check every written row by a rigorous '
+         'interval test at precision 1 and 4.',
+         'Trusted: Lean kernel, standard axioms, Mathlib real analysis, fracexec + stub table. Dew-point *accuracy* of the '
+         'empirical correlation and output rounding are measured, not proved.', 'DESIGN.md section 4 C09'),
 }
 NOT_YET = 'check not built yet in this session (work in progress; see DESIGN.md section 4)'
 
